@@ -1,7 +1,7 @@
 """Contracts for the source-line arithmetic of the renderer (C04): the functions through which a markdown-it
 token's `map` becomes a docutils node's `line`."""
 from pyvc.spec import assumed, contract, fields, history, spec, implies, forall, exists  # noqa: F401
-import contracts.assumed_docutils  # noqa: F401
+from contracts.assumed_docutils import GP_ENS, GP_MOD, GP_TEXT
 
 M = "myst_parser.mdit_to_docutils.base"
 
@@ -25,7 +25,6 @@ contract(
     properties=["C04"],
 )
 
-fields("docutils.nodes:Element", source="str | None")
 fields("docutils.nodes:Document", attr_source="str")
 contract(
     "ext:Document.__getitem__",
@@ -84,13 +83,15 @@ def Distinct(tokens):
 contract(
     f"{M}:DocutilsRenderer._render_tokens",
     until="node_tree = SyntaxTreeNode(tokens)",
-    # what callers see of the whole function: it may change anything (the rendering of the tokens, everything after the
-    # first loop, is outside these contracts)
+    # what callers see of the whole function: G' (the rendering of the tokens, everything after the first loop, is outside
+    # these contracts and dispatches dynamically like render_children) over a frame that also holds the renderer state that
+    # rendering legitimately changes (open sections, heading offset, the parser's ghost record, the temporary root)
     callers=dict(
         requires=["Distinct(tokens)", "forall(0, len(tokens), lambda i: implies(has_map(tokens[i]), len(tokens[i].map) == 2))"],
-        ensures=[],
+        ensures=GP_ENS,
         raises={"Exception": []},
-        modifies=["*"],
+        modifies=GP_MOD + ["Token.map", "DocutilsRenderer._level_to_section", "DocutilsRenderer._heading_offset",
+                           "MarkdownIt.last_text", "MarkdownIt.last_result", "MarkdownIt.last_inline", "MdEnv.temp_root_node"],
     ),
     requires=[
         "Distinct(tokens)",
@@ -182,6 +183,8 @@ contract(
 assumed("md_env['temp_root_node']", "the markdown-it environment mapping is seen through this one key only (get / item assignment); "
         "an absent key reads as None", "myst_parser")
 
+NRT_MOD = GP_MOD + ["Token.map", "DocutilsRenderer._level_to_section", "DocutilsRenderer._heading_offset",
+                    "MarkdownIt.last_text", "MarkdownIt.last_result", "MarkdownIt.last_inline", "MdEnv.temp_root_node"]
 contract(
     f"{M}:DocutilsRenderer.nested_render_text",
     requires=[],
@@ -208,9 +211,12 @@ contract(
         "implies(temp_root_node is not None, forall(None, None, lambda k: (k in self._level_to_section) == (k in old(self._level_to_section))))",
         "implies(temp_root_node is not None, forall(None, None, lambda k: implies(k in self._level_to_section,"
         " self._level_to_section[k] == old(self._level_to_section)[k])))",
+        # G' carries through (C06: nested content lands below the current node and nowhere else; the current node is put back)
+        *GP_ENS,
+        "implies(temp_root_node is not None, self.md_env.temp_root_node == old(self.md_env.temp_root_node))",
     ],
     raises={"Exception": []},
-    modifies=["*"],
+    modifies=NRT_MOD,
     types={"temp_root_node": "Element | None"},
     loops={
         "for token in tokens": dict(invariant=[
@@ -222,5 +228,41 @@ contract(
             "forall(0, len(tokens), lambda i: implies(tokens[i].g_src < 0, not has_map(tokens[i])))",
         ]),
     },
-    properties=["C04", "C05"],
+    properties=["C04", "C05", "C06"],
+)
+
+
+# ---------------------------------------------------------------------------------------------------------------
+# MockState.nested_parse (what a docutils directive calls to render its body): C06 - the body is rendered by the same
+# renderer into `node`, and nowhere else; C04 - at 0-based source offset  state line + input_offset.
+MK = "myst_parser.mocking"
+fields(f"{MK}:MockState", _renderer="DocutilsRenderer", _lineno="int", state_machine="MockStateMachine")
+fields(f"{MK}:MockStateMachine", match_titles="bool")
+contract(
+    f"{MK}:MockState.nested_parse",
+    requires=["node.kind != 'Text'"],
+    at_call={
+        "self._renderer.nested_render_text(": [
+            # the body is rendered with `node` as the current node ...
+            "self._renderer.current_node == node",
+            # ... as the block's lines joined by newlines, at the 0-based source offset  state line + input_offset
+            # (docstring: input_offset is "the offset of the first line of block, to the starting line of the state")
+            "_arg0 == '\\n'.join(block)",
+            "_arg1 == self._lineno + input_offset",
+            # a temporary root (headings allowed) only when the directive asked for titles, and then it is `node`
+            "_kw_temp_root_node == (node if match_titles else None)",
+        ],
+    },
+    ensures=[
+        "self._renderer.current_node == old(self._renderer.current_node)",
+        # everything the body produced is below `node`: it keeps what it had, every other node that existed keeps its children
+        "node.children[: len(old(node.children))] == old(node.children)",
+        "forall_obj('Element', lambda e: implies(old(allocated(e)) and e != node, e.children == old(e.children)))",
+        "forall_obj('Element', lambda e: implies(old(allocated(e)), e.parent == old(e.parent) and e.kind == old(e.kind)))",
+        "self.state_machine.match_titles == old(self.state_machine.match_titles)",
+    ],
+    types={"block": "list[str]", "node": "Element", "state_machine_class": "None", "state_machine_kwargs": "None"},
+    raises={"Exception": []},
+    modifies=NRT_MOD + ["self._renderer.current_node", "self.state_machine.match_titles"],
+    properties=["C06", "C04"],
 )
